@@ -142,30 +142,57 @@ pub(crate) fn server_config_client_auth() -> Arc<ServerConfig> {
     .clone()
 }
 
-fn client_config(clientcert: bool) -> Arc<ClientConfig> {
-    static PLAIN: OnceLock<Arc<ClientConfig>> = OnceLock::new();
-    static WITH_CERT: OnceLock<Arc<ClientConfig>> = OnceLock::new();
-    let cell = if clientcert { &WITH_CERT } else { &PLAIN };
-    cell.get_or_init(|| {
-        let b = ClientConfig::builder()
-            .dangerous()
-            .with_custom_certificate_verifier(Arc::new(AcceptAnyServerCert));
-        let cfg = if clientcert {
-            let cert = rcgen::generate_simple_self_signed(vec!["client.localhost".to_string()])
-                .expect("harness: rcgen failed (client cert)");
-            b.with_client_auth_cert(
-                vec![CertificateDer::from(
-                    cert.serialize_der().expect("harness: client cert der"),
-                )],
-                PrivateKeyDer::Pkcs8(cert.get_key_pair().serialize_der().into()),
-            )
-            .expect("harness: rustls client config")
-        } else {
-            b.with_no_client_auth()
-        };
-        Arc::new(cfg)
+/// The client's self-signed certificate (DER) and PKCS#8 key, built once.
+fn client_identity() -> &'static (Vec<u8>, Vec<u8>) {
+    static ID: OnceLock<(Vec<u8>, Vec<u8>)> = OnceLock::new();
+    ID.get_or_init(|| {
+        let cert = rcgen::generate_simple_self_signed(vec!["client.localhost".to_string()])
+            .expect("harness: rcgen failed (client cert)");
+        (
+            cert.serialize_der().expect("harness: client cert der"),
+            cert.get_key_pair().serialize_der(),
+        )
     })
-    .clone()
+}
+
+/// Client config, cached per (clientcert, bighello). `bighello = N > 0` inflates the ClientHello
+/// to at least N bytes with ceil(N / 256) distinct 255-byte ALPN protocol names (each costs
+/// 256 bytes in the extension), which is legal TLS; a server without ALPN ignores them.
+fn client_config(clientcert: bool, bighello: usize) -> Arc<ClientConfig> {
+    use std::collections::HashMap;
+    use std::sync::Mutex;
+    static CACHE: OnceLock<Mutex<HashMap<(bool, usize), Arc<ClientConfig>>>> = OnceLock::new();
+    let cache = CACHE.get_or_init(|| Mutex::new(HashMap::new()));
+    let mut cache = cache.lock().unwrap_or_else(|e| e.into_inner());
+    cache
+        .entry((clientcert, bighello))
+        .or_insert_with(|| {
+            let b = ClientConfig::builder()
+                .dangerous()
+                .with_custom_certificate_verifier(Arc::new(AcceptAnyServerCert));
+            let mut cfg = if clientcert {
+                let (cert, key) = client_identity();
+                b.with_client_auth_cert(
+                    vec![CertificateDer::from(cert.clone())],
+                    PrivateKeyDer::Pkcs8(key.clone().into()),
+                )
+                .expect("harness: rustls client config")
+            } else {
+                b.with_no_client_auth()
+            };
+            if bighello > 0 {
+                let n = (bighello + 255) / 256;
+                cfg.alpn_protocols = (0..n)
+                    .map(|i| {
+                        let mut name = format!("harness-pad-{:05}-", i).into_bytes();
+                        name.resize(255, b'x');
+                        name
+                    })
+                    .collect();
+            }
+            Arc::new(cfg)
+        })
+        .clone()
 }
 
 // ---------------------------------------------------------------------------------------------
@@ -415,7 +442,7 @@ pub fn run_case(case: Case) -> (String, Vec<Aux>) {
     }
     // The client is created up front so that its ClientHello is available immediately.
     let mut client = ClientConnection::new(
-        client_config(case.clientcert),
+        client_config(case.clientcert, case.bighello),
         ServerName::try_from("localhost").expect("harness: server name"),
     )
     .expect("harness: cannot create rustls client");
@@ -425,6 +452,9 @@ pub fn run_case(case: Case) -> (String, Vec<Aux>) {
             Ok(0) | Err(_) => break,
             Ok(_) => {}
         }
+    }
+    if std::env::var_os("HARNESS_TLS_DEBUG").is_some() {
+        eprintln!("harness: case {}: ClientHello is {} bytes", case.id, hello.len());
     }
     let k = case.split.min(hello.len());
     let mut pre_block = std::mem::take(&mut case.pre);
